@@ -242,7 +242,7 @@ theorem dominated_from {i : Inst} (hwf : WF i) (hmno : i.maskNoOps = false) {σ 
           omega
         obtain ⟨jp, hjp, hipp⟩ := hip
         have hmask0 : mask i s 0 = true := by
-          simp only [mask, if_true, noOpMask, hmno, Bool.false_eq_true, if_false, hd, Bool.not_false,
+          simp only [mask, if_true, noOpMask_eq, hmno, Bool.false_eq_true, if_false, hd, Bool.not_false,
             Bool.and_true, Bool.or_false]
           exact anyUpTo_iff.mpr ⟨jp, hjp, hipp⟩
         have hact0 : 0 < nAct i := by unfold nAct; split <;> omega
